@@ -153,6 +153,23 @@ def fam_muc_eqmix(rng):
     return lines
 
 
+def fam_cv_rwr(rng):
+    """C04 ('if the thread signal picks holds the mutex as a reader, all waiting readers are woken'): waiters queue
+    on the cv in a FIXED order — reader first, then readers and exactly one writer in any positions — each starting
+    only after its predecessor sleeps (op after_blocked); then ONE nsync_cv_signal.  The first waiter is a reader, so
+    the signal must wake every reader and may wake the writer: nobody may be left asleep."""
+    n = rng.choice([3, 3, 4, 5])
+    modes = ["R"] + ["R"] * (n - 2) + ["W"]
+    tail = modes[1:]; rng.shuffle(tail); modes = ["R"] + tail
+    lines = ["sem %s" % rng.choice(["counting", "binary"]), "objs mu=1 cv=1 var=1", "var x0 0 mu0"]
+    for i, m in enumerate(modes):
+        ops = (["after_blocked %d" % (i - 1)] if i else []) + (["rlock mu0", "await cv0 mu0 x0 1 inf", "runlock mu0"] if m == "R" else ["lock mu0", "await cv0 mu0 x0 1 inf", "unlock mu0"])
+        lines.append("fiber " + " ; ".join(ops))
+    inside = rng.random() < 0.5
+    lines.append("fiber after_blocked %d ; " % (n - 1) + ("lock mu0 ; wr x0 1 ; signal cv0 ; unlock mu0" if inside else "lock mu0 ; wr x0 1 ; unlock mu0 ; signal cv0"))
+    return lines
+
+
 def fam_cancel_only(rng):
     """C05 / C13: waits that ONLY their cancel note (explicit notify, the note's own deadline, or a parent's) or
     their own deadline can end: nobody signals the cv or makes the condition true.  'Once the note is notified the
@@ -363,6 +380,9 @@ def fam_once(rng):
     nf = rng.choice([2, 3, 3, 4])
     objs = rng.choice([["o0"], ["o0", "o64"], ["o0", "o1", "o64"], ["o0", "o64", "o128"]])
     lines = ["sem %s" % rng.choice(["counting", "binary"]), "objs mu=1 once=130"]
+    if rng.random() < 0.4:
+        # a long-running initialiser: the clock passes several of the blocked callers' polling deadlines while it runs
+        lines.append("oncecb %d" % rng.choice([30, 60, 120]))
     for f in range(nf):
         ops = []
         for _ in range(rng.choice([1, 2, 3])):
@@ -429,7 +449,7 @@ except Exception:
     _gm = None
 
 FAMILIES = {"alloc_fail": fam_alloc_fail, "note": _gn.fam_note, "note_f4": _gn.fam_note_f4, "note_f4b": _gn.fam_note_f4b, "note_f7": _gn.fam_note_f7, "refcount": fam_refcount, "starve": fam_starve, "cv_rsignal": fam_cv_rsignal, "ctr": fam_ctr, "once": fam_once, "futex": fam_futex,"core": fam_core, "cv": fam_cv, "cv_raw": fam_cv_raw, "muwait": fam_muwait, "debug": fam_debug,
-            "waitn_cv": fam_waitn_cv, "waitn_rep": fam_waitn_rep, "muc_eqmix": fam_muc_eqmix, "timed_contended": fam_timed_contended, "waitn_mon": fam_waitn_mon, "cancel_only": fam_cancel_only, "mixed": fam_mixed}
+            "waitn_cv": fam_waitn_cv, "waitn_rep": fam_waitn_rep, "cv_rwr": fam_cv_rwr, "muc_eqmix": fam_muc_eqmix, "timed_contended": fam_timed_contended, "waitn_mon": fam_waitn_mon, "cancel_only": fam_cancel_only, "mixed": fam_mixed}
 
 
 if _gw is not None:
